@@ -153,6 +153,7 @@ func c04Digest(br *BreachRetribution) string {
 }
 
 type c04Run struct {
+	stale   [2]*chanstate.OpenChannel
 	w       *bufio.Writer
 	p       *c0405Pair
 	spendID int
@@ -286,6 +287,18 @@ func (c *c04Run) check() {
 			if reloaded != nil {
 				modes = append(modes, mode{"reload/tx", reloaded, cheaterTx},
 					mode{"reload/notx", reloaded, nil})
+			}
+			if sc := c.stale[v]; sc != nil {
+				// exactly what contractcourt/chain_watcher.go does with
+				// its own start-up copy of the channel: refresh the
+				// revocation state from disk (newChainSet), then build
+				// the retribution on that copy (handlePossibleBreach)
+				if _, err := sc.RemoteRevocationStore(); err != nil {
+					c.pf("retr v=%s h=%d mode=stale/tx noamt=%d same=- => err:refresh\n", vn, h,
+						c0405B2i(p.noAmt))
+				} else {
+					modes = append(modes, mode{"stale/tx", sc, cheaterTx})
+				}
 			}
 			for mi, m := range modes {
 				var (
@@ -507,8 +520,30 @@ func TestVerifC04(t *testing.T) {
 			}
 			steps := maxSteps/2 + r.Intn(maxSteps/2+1)
 			n := 0
-			for n < steps && !p.dead && p.step(maxAdds) {
+			// like a chain watcher started earlier, keep a SEPARATE copy of
+			// each node's channel loaded from the database at some earlier
+			// point of the history
+			staleAt := r.Intn(steps + 1)
+			var stale [2]*chanstate.OpenChannel
+			takeStale := func() {
+				for x := 0; x < 2; x++ {
+					st := p.ch[x].channelState
+					if chans, err := st.Db.FetchOpenChannels(st.IdentityPub); err == nil && len(chans) == 1 {
+						stale[x] = chans[0]
+					}
+				}
+			}
+			for n < steps && !p.dead {
+				if n == staleAt {
+					takeStale()
+				}
+				if !p.step(maxAdds) {
+					break
+				}
 				n++
+			}
+			if stale[0] == nil {
+				takeStale()
 			}
 			drained := r.Intn(3) != 0
 			if drained {
@@ -516,7 +551,7 @@ func TestVerifC04(t *testing.T) {
 			}
 			fmt.Fprintf(w, "CASE %d prop=c04 %s steps=%d drained=%d dead=%d\n",
 				caseID, p.header(), n, c0405B2i(drained), c0405B2i(p.dead))
-			run := &c04Run{w: w, p: p, negLeft: 40}
+			run := &c04Run{w: w, p: p, negLeft: 40, stale: stale}
 			run.check()
 			fmt.Fprintf(w, "END\n")
 			for k, v := range p.stats {
